@@ -291,3 +291,61 @@ def _register():
 
 
 _register()
+
+
+def entry_uclchem(it):
+    """UCLCHEM line  r1,r2,r3,p1,p2,p3,p4,alpha,beta,gamma,Tmin,Tmax  (absent slots NAN; the second slot is a species, NAN or the
+    keyword that names the process).  A freeze-out line is read with the window (0, 30) whatever it says (documented behaviour)."""
+    from naunet.reactions.uclchemreaction import UCLCHEMReaction
+    from naunet.species import Species
+    from . import laws_gas as L
+    from naunet.reactiontype import ReactionType as RT
+    Species.reset()
+    codes = ["MA"] + list(L.UCLCHEM_TYPES)
+    code = codes[it.choose(len(codes), "code")]
+    if code == "MA":
+        nr = 1 + it.choose(3, "reactants")          # 1, 2 or 3 species
+    else:
+        nr = 1 + it.choose(2, "third-body")          # the species, optionally one more in the third slot
+    np_ = 1 + it.choose(4, "products")
+    a, b, c, tmin, tmax = z3.Reals("alpha beta gamma tmin tmax")
+    names = list(range(nr + np_))
+    for k in names:
+        it.assume(name_len(k) >= 1)
+    NAN = Lit("NAN")
+    if code == "MA":
+        slots = [word(names[k], 0) if k < nr else NAN for k in range(3)]
+    else:
+        slots = [word(names[0], 0), Lit(code), word(names[1], 0) if nr == 2 else NAN]
+    slots += [word(names[nr + k], 0) if k < np_ else NAN for k in range(4)]
+    segs = []
+    for s_ in slots:
+        segs += [s_, Lit(",")]
+    segs += [num(a, "float", "la"), Lit(","), num(b, "float", "lb"), Lit(","), num(c, "float", "lc"), Lit(","), num(tmin, "float", "l1"), Lit(","),
+             num(tmax, "float", "l2"), Lit("\n")]
+    obj = UCLCHEMReaction.__new__(UCLCHEMReaction)
+    from naunet.component import Component
+    Component.__init__(obj)
+    obj.reactants, obj.products = [], []
+    P = ("C07",)
+    tag = f"uclchem/{code}/{nr}r{np_}p"
+    try:
+        it.call_function(UCLCHEMReaction._parse_string, [obj, SStr(segs)], {})
+    except PyRaise as e:
+        it.fail(f"{tag}/no-exception", P, f"{type(e.exc).__name__}: {e.exc}")
+        return
+    wmin, wmax = (z3.RealVal(0), z3.RealVal(30)) if code == "FREEZE" else (tmin, tmax)
+    obj.idxfromfile = getattr(obj, "idxfromfile", -1)
+    check_reaction(it, obj, tag, P, names[:nr], names[nr:], a, b, c, wmin, wmax, z3.IntVal(int(obj.idxfromfile)) if isinstance(obj.idxfromfile, int) else z3.IntVal(-1))
+    want = int(RT.GAS_TWOBODY) if code == "MA" else int(RT[L.UCLCHEM_TYPES[code]])
+    it.prove(z3.BoolVal(int(obj.reaction_type) == want), f"uclchem/keyword-{code}-type", P, detail=f"{obj.reaction_type!r}")
+
+
+def _register_ucl():
+    from pyvc.units import Unit, register
+    from naunet.reactions.uclchemreaction import UCLCHEMReaction
+    from naunet.component import Component
+    register(Unit("decode_uclchem", __name__, make_ctx, entry_uclchem, functions=[UCLCHEMReaction._parse_string, Component._create_species], props=("C07",)))
+
+
+_register_ucl()
